@@ -283,4 +283,194 @@ def item_c01_snapshot(repo, out):
     out.append('Definition dup_final_dump_padded : list (string * bool) := [%s].' % '; '.join(pads))
 
 
-ITEMS = [item_c01_attrs, item_c01_tconv, item_c01_conj, item_c01_weight_names, item_c01_snapshot]
+# ------------------------------------------------------------------------------------------------ sensor cache grid
+
+def _targets(node):
+    if isinstance(node, ast.Assign):
+        return [_norm(t) for t in node.targets]
+    if isinstance(node, (ast.AugAssign, ast.AnnAssign)):
+        return [_norm(node.target)]
+    return []
+
+
+def _grid_statements(cls, cname):
+    """(constructor call, final time-array expression, index of the deciding statement in __init__.body, __init__).
+
+    The deciding statement is the LAST of: `self.sensor = SensorCache(cache, <timestamps>, ...)` and any later
+    `self.sensor.timestamps = <expr>`; all of them must be unconditional top-level statements of __init__, nothing
+    else in the class may rebind `self.sensor` or `self.sensor.timestamps`, the cache must be given
+    keep=self._time_keep and the default selection (`self.select(...)`) must come after the deciding statement."""
+    rel = cname
+    init = _func(cls, '__init__', rel)
+    binders = [n for n in ast.walk(cls) if {'self.sensor', 'self.sensor.timestamps'} & set(_targets(n))]
+    top = [n for n in init.body if n in binders]
+    if len(top) != len(binders):
+        raise TranslateError('%s: self.sensor / self.sensor.timestamps is assigned conditionally or outside the '
+                             'top level of __init__ (line %s)' % (cname, [n.lineno for n in binders if n not in top]))
+    ctors = [n for n in top if 'self.sensor' in _targets(n)]
+    if len(ctors) != 1 or not (isinstance(ctors[0], ast.Assign) and isinstance(ctors[0].value, ast.Call)
+                               and _norm(ctors[0].value.func) == 'SensorCache' and len(ctors[0].targets) == 1):
+        raise TranslateError('%s.__init__: self.sensor is not built by exactly one SensorCache(...) call' % cname)
+    call = ctors[0].value
+    kw = dict((k.arg, k.value) for k in call.keywords)
+    if len(call.args) < 3 or any(isinstance(a, ast.Starred) for a in call.args) or None in kw:
+        raise TranslateError('%s.__init__: SensorCache call of unexpected shape' % cname)
+    keep = call.args[3] if len(call.args) > 3 else kw.get('keep')
+    if keep is None or _norm(keep) != 'self._time_keep':
+        raise TranslateError('%s.__init__: the sensor cache is not given keep=self._time_keep' % cname)
+    final, at = call.args[1], init.body.index(ctors[0])
+    for n in top:
+        if n is ctors[0]:
+            continue
+        if init.body.index(n) < at or not isinstance(n, ast.Assign) or len(n.targets) != 1:
+            raise TranslateError('%s.__init__: unexpected assignment to self.sensor.timestamps (line %d)' % (cname, n.lineno))
+        final = n.value
+    at = max(init.body.index(n) for n in top)
+    selects = [i for i, n in enumerate(init.body) if isinstance(n, ast.Expr) and _norm(n.value).startswith('self.select(')]
+    if len(selects) != 1 or selects[0] < at or any(
+            isinstance(n, ast.Call) and _norm(n.func) == 'self.select' for m in init.body[:selects[0]] for n in ast.walk(m)):
+        raise TranslateError('%s.__init__: the default selection is not applied once, after the sensor cache has its '
+                             'final timestamps' % cname)
+    return call, final, at, init
+
+
+def _only_before(cls, cname, names, lineno, allow=()):
+    """Every statement of the class that binds or updates one of `names` lies in __init__ before line `lineno`."""
+    init = _func(cls, '__init__', cname)
+    inside = set(id(n) for n in ast.walk(init))
+    for n in ast.walk(cls):
+        hit = set(names) & set(_targets(n))
+        if hit and _norm(n) not in allow and (id(n) not in inside or n.lineno >= lineno):
+            raise TranslateError('%s: %s is rebound or updated after the sensor cache was given it (line %d)'
+                                 % (cname, sorted(hit)[0], n.lineno))
+
+
+def item_c01_sensor_grid(repo, out):
+    """Which time array each format leaves in its SensorCache (the grid on which every per-dump sensor, virtual
+    sensor and select(timerange=) is evaluated): 0 = the data set's own `timestamps` property read while everything
+    is selected, 1 = LazyIndexer over the stored timestamps without the duplicate final dump + linear transform,
+    2 = the very array object that the `timestamps` property masks with _time_keep."""
+    order = ['t', 'dump', 'off']
+    rows = {}
+    # v1: self.sensor.timestamps = self.timestamps, with _time_keep all ones at that point
+    rel = 'katdal/h5datav1.py'
+    cls = _class(_parse(repo, rel), 'H5DataV1', rel)
+    call, final, at, init = _grid_statements(cls, 'H5DataV1')
+    if _norm(final) != 'self.timestamps':
+        raise TranslateError('H5DataV1.__init__: the sensor cache is left with %s' % ast.unparse(final)[:80])
+    keeps = [n for n in ast.walk(init) if 'self._time_keep' in _targets(n)]
+    if len(keeps) != 1 or keeps[0] not in init.body[:at] or _norm(keeps[0].value) != 'np.ones(num_dumps,dtype=bool)':
+        raise TranslateError('H5DataV1.__init__: _time_keep is not all ones when the timestamps are handed over')
+    rows['v1'] = (0, '[]')
+    # v2: LazyIndexer(self._timestamps, keep=slice(num_dumps), transforms=[extract_time])
+    rel = 'katdal/h5datav2.py'
+    cls = _class(_parse(repo, rel), 'H5DataV2', rel)
+    call, final, at, init = _grid_statements(cls, 'H5DataV2')
+    if _norm(final) != 'LazyIndexer(self._timestamps,keep=slice(num_dumps),transforms=[extract_time])':
+        raise TranslateError('H5DataV2.__init__: the sensor cache is left with %s' % ast.unparse(final)[:80])
+    tops = [_norm(n) for n in init.body[:at]]
+    for need in ('dump_period,time_offset=(self.dump_period,self.time_offset)', 'num_dumps=len(self._timestamps)',
+                 'num_dumps=num_dumps-1ifnum_dumps>1andself._timestamps[-1]==self._timestamps[-2]elsenum_dumps'):
+        if need not in tops:
+            raise TranslateError('H5DataV2.__init__: missing %s before the timestamps are handed over' % need)
+    for nm, cnt in (('num_dumps', 2), ('dump_period', 1), ('time_offset', 1), ('extract_time', 1)):
+        binds = [n for n in ast.walk(init) if isinstance(n, (ast.Assign, ast.AugAssign)) and any(
+            isinstance(x, ast.Name) and x.id == nm and isinstance(x.ctx, ast.Store) for x in ast.walk(n))]
+        if len(binds) != cnt or any(n not in init.body[:at] for n in binds):
+            raise TranslateError('H5DataV2.__init__: %s is bound %d times' % (nm, len(binds)))
+    _only_before(cls, 'H5DataV2', ['self._timestamps'], init.body[at].lineno)
+    lam = _the_lambda(init, 'extract_time', 'H5DataV2.__init__')
+    form = _lin(lam.body, {'t': 't', 'dump_period': 'dump', 'time_offset': 'off'}, 'H5DataV2.__init__ extract_time')
+    rows['v2'] = (1, _coq_form(form, order, 'H5DataV2.__init__ extract_time'))
+    # v3 / v4: the cache and the timestamps property share one array object
+    for ver, rel, cname, arr, names in (
+            ('v3', 'katdal/h5datav3.py', 'H5DataV3', 'self._timestamps', ['self._timestamps']),
+            ('v4', 'katdal/visdatav4.py', 'VisibilityDataV4', 'source.timestamps',
+             ['source.timestamps', 'self.source.timestamps', 'self.source', 'source'])):
+        cls = _class(_parse(repo, rel), cname, rel)
+        call, final, at, init = _grid_statements(cls, cname)
+        if _norm(final) != arr:
+            raise TranslateError('%s.__init__: the sensor cache is left with %s' % (cname, ast.unparse(final)[:80]))
+        _only_before(cls, cname, names, init.body[at].lineno)
+        prop = _func(cls, 'timestamps', rel)
+        want = 'returnself.%s[self._time_keep]' % arr.replace('self.', '')
+        if [_norm(n) for n in prop.body if not isinstance(n, ast.Expr)] != [want]:
+            raise TranslateError('%s.timestamps is not %s' % (cname, want))
+        if ver == 'v4' and 'self.source=source' not in [_norm(n) for n in init.body[:at]]:
+            raise TranslateError('VisibilityDataV4.__init__: self.source is not the source whose timestamps the cache got')
+        rows[ver] = (2, '[]')
+    for ver in ('v1', 'v2', 'v3', 'v4'):
+        out.append('Definition sensor_grid_%s : Z * list (Z * Z) := (%s, %s).' % (ver, coq_Z(rows[ver][0]), rows[ver][1]))
+
+
+def _name_binds(init, name):
+    return [n for n in ast.walk(init) if isinstance(n, (ast.Assign, ast.AugAssign)) and name in _targets(n)]
+
+
+def item_c01_construction_grid(repo, out):
+    """The time array the sensor cache holds WHILE __init__ partitions the data set into scans (sensors extracted then
+    keep that alignment): v1 / v2 the estimate first + dump_period * arange(num_dumps) when the "quick test for uniform
+    spacing" |expected_dumps - num_dumps| < threshold passes, else the real timestamps (code 3 + threshold);
+    v3 / v4 the final array (code 2)."""
+    rows = {}
+    est = {'v1': 'data_timestamps=data_timestamps[0]+self.dump_period*np.arange(num_dumps)',
+           'v2': 'data_timestamps=self._timestamps[0]+self.dump_period*np.arange(num_dumps)'}
+    real = {'v1': 'data_timestamps=data_timestamps[:]', 'v2': 'data_timestamps=self._timestamps[:num_dumps]'}
+    for ver, cname in (('v1', 'H5DataV1'), ('v2', 'H5DataV2')):
+        rel = 'katdal/h5data%s.py' % ver
+        cls = _class(_parse(repo, rel), cname, rel)
+        call, final, at, init = _grid_statements(cls, cname)
+        if _norm(call.args[1]) != 'data_timestamps':
+            raise TranslateError('%s.__init__: SensorCache is built on %s' % (cname, ast.unparse(call.args[1])[:60]))
+        ctor_at = [i for i, n in enumerate(init.body) if isinstance(n, ast.Assign) and n.value is call][0]
+        ifs = [n for n in init.body[:ctor_at] if isinstance(n, ast.If) and est[ver] in [_norm(m) for m in n.body]]
+        if len(ifs) != 1 or len(ifs[0].body) != 1 or not ifs[0].orelse or _norm(ifs[0].orelse[0]) != real[ver]:
+            raise TranslateError('%s.__init__: estimated / real timestamps branch not of the expected shape' % cname)
+        test = ifs[0].test
+        tops = [_norm(n) for n in init.body[:ctor_at]]
+        if ver == 'v1':
+            need = ['data_timestamps=self.timestamps']
+            if not (isinstance(test, ast.Compare) and len(test.ops) == 1 and isinstance(test.ops[0], ast.Lt) and _norm(
+                    test.left) == 'abs((data_timestamps[-1]-data_timestamps[0])/self.dump_period+1-num_dumps)'):
+                raise TranslateError('H5DataV1.__init__: quick test is %s' % ast.unparse(test)[:80])
+            thr = test.comparators[0]
+            nbind = 3
+        else:
+            if _norm(test) != 'notirregularorquicklook':
+                raise TranslateError('H5DataV2.__init__: branch test is %s' % ast.unparse(test)[:80])
+            irr = [n for n in init.body[:ctor_at] if isinstance(n, ast.Assign) and _targets(n) == ['irregular']]
+            if len(irr) != 1 or len(_name_binds(init, 'irregular')) != 1 or not (
+                    isinstance(irr[0].value, ast.Compare) and len(irr[0].value.ops) == 1
+                    and isinstance(irr[0].value.ops[0], ast.GtE) and _norm(irr[0].value.left) == 'abs(expected_dumps-num_dumps)'):
+                raise TranslateError('H5DataV2.__init__: irregular is not abs(expected_dumps - num_dumps) >= threshold')
+            thr = irr[0].value.comparators[0]
+            need = ['expected_dumps=(self._timestamps[num_dumps-1]-self._timestamps[0])/self.dump_period+1',
+                    'data_timestamps+=0.5*self.dump_period+self.time_offset']
+            args = _func(cls, '__init__', rel).args
+            names = [a.arg for a in args.args]
+            dflt = dict(zip(names[len(names) - len(args.defaults):], args.defaults))
+            if 'quicklook' not in dflt or _norm(dflt['quicklook']) != 'False':
+                raise TranslateError('H5DataV2.__init__: quicklook does not default to False')
+            nbind = 3
+        for x in need:
+            if x not in tops:
+                raise TranslateError('%s.__init__: missing %s' % (cname, x))
+        if len(_name_binds(init, 'data_timestamps')) != nbind:
+            raise TranslateError('%s.__init__: data_timestamps is bound %d times' % (cname, len(_name_binds(init, 'data_timestamps'))))
+        if not (isinstance(thr, ast.Constant) and isinstance(thr.value, float)):
+            raise TranslateError('%s.__init__: threshold of the quick test is not a literal' % cname)
+        f = Fraction(str(thr.value))
+        rows[ver] = '(%s, (%s, %s))' % (coq_Z(3), coq_Z(f.numerator), coq_Z(f.denominator))
+    for ver, rel, cname, arr in (('v3', 'katdal/h5datav3.py', 'H5DataV3', 'self._timestamps'),
+                                 ('v4', 'katdal/visdatav4.py', 'VisibilityDataV4', 'source.timestamps')):
+        cls = _class(_parse(repo, rel), cname, rel)
+        call, final, at, init = _grid_statements(cls, cname)
+        if _norm(call.args[1]) != arr or final is not call.args[1]:
+            raise TranslateError('%s.__init__: SensorCache is built on %s' % (cname, ast.unparse(call.args[1])[:60]))
+        rows[ver] = '(%s, (%s, %s))' % (coq_Z(2), coq_Z(0), coq_Z(1))
+    for ver in ('v1', 'v2', 'v3', 'v4'):
+        out.append('Definition construction_grid_%s : Z * (Z * Z) := %s.' % (ver, rows[ver]))
+
+
+ITEMS = [item_c01_attrs, item_c01_tconv, item_c01_conj, item_c01_weight_names, item_c01_snapshot,
+         item_c01_sensor_grid, item_c01_construction_grid]
